@@ -219,7 +219,7 @@ public:
     virtual const char* free_name() const CPPUTEST_OVERRIDE;
 private:
 
-    void addMemoryToMemoryTrackingToKeepTrackOfSize(char* memory, size_t size);
+    bool addMemoryToMemoryTrackingToKeepTrackOfSize(char* memory, size_t size);
     size_t removeMemoryFromTrackingAndReturnAllocatedSize(char* memory);
 
     size_t removeNextNodeAndReturnSize(AccountingTestMemoryAllocatorMemoryNode* node);
